@@ -16,6 +16,7 @@ import signal
 import typing
 import warnings
 
+import bridgetie
 import coregen
 import coremodel
 import coreprop
@@ -23,7 +24,8 @@ import impl
 import lib
 import universe
 
-COQ_TARGETS = ["theories/Props/C15.vo", "theories/Model/BuildTables.vo", "theories/Model/CoreTables.vo"]
+COQ_TARGETS = ["theories/Props/C15.vo", "theories/Model/BuildTables.vo", "theories/Model/CoreTables.vo",
+               "theories/Props/C05Bridge.vo", "theories/Model/GraphBridgeEq.vo"]
 THEOREMS = ["C15_construction_total", "C15_passthrough", "C15_noop_only_at_passthrough", "C15_repeatable"]
 
 # leaves of the extended grammar that the model knows (tie + oracle)
@@ -189,6 +191,8 @@ def correspond(run: lib.Run):
     run.record_corr("mechanism-vs-reference-semantics", ncases, [g.cases[i][4] for g, i in ba], distinct, dist)
     if groups and groups[0].cases:
         run.samples.append(groups[0].cases[-1][4])
+    # the order contract assumed by this property's theorems is decided through the graph model (notes/bridge.md)
+    bridgetie.bridge_obligations(run, groups, "c15")
 
 
 # ----------------------------------------------------------------------------------
@@ -300,6 +304,39 @@ def oracle_behaviour(cat, src, t, mod):
     return out
 
 
+def class_topologies(run, stats):
+    import itertools as it
+    from props import c07
+    rng = random.Random(run.seed * 7 + 3)
+    fails, topos = [], []
+    per = lambda kind: [[(kind, t)] for t in range(3)] + [[(kind, a), (kind, b)] for a, b in it.product(range(3), repeat=2)]
+    for kind in c07.EDGES:
+        allk = list(it.product(per(kind), repeat=3))
+        topos += allk if run.tier == "thorough" else rng.sample(allk, 150)
+    topos += list(c07.topologies(3, rng, run.budget(60, 1500)))
+    for topo in topos:
+        env = c07.make_env(topo, rng)
+        try:
+            mod, tys, src = universe.materialise(env, [("name", n) for n in range(3)])
+        except Exception as e:
+            run.notes.append(f"class topology did not materialise: {e!r}")
+            continue
+        try:
+            for n, t in enumerate(tys):
+                impl.clear_caches()
+                res = construct_all(t)
+                stats["evaluations"] += 1
+                bad = {k: v[1] or v[0] for k, v in res.items() if v[0] != "ok"}
+                if bad:
+                    fails.append({"symptom": "construction failed", "annotation": f"N{n}", "category": "class-topology",
+                                  "module_source": src, "got": bad, "key": "C15-topology-" + repr(topo)})
+                    break
+                stats["nontrivial"] += 1
+        finally:
+            impl.drop_module(env["module"])
+    return fails
+
+
 def search(run: lib.Run, broken):
     from typelib import marshals, unmarshals
     groups, records, anns = getattr(run, "_c15", (None, None, None))
@@ -382,6 +419,9 @@ def search(run: lib.Run, broken):
                 fails += oracle_behaviour(cat, src, t, mod)
     finally:
         impl.drop_module("verif_c15_oracle")
+    # 3. user classes: construction over class graphs (cycles, diamonds, crosswise same-named members), one edge
+    #    kind at a time exhaustively over 3 classes with <= 2 members each, plus mixed kinds at random
+    fails += class_topologies(run, stats)
     run.search_stats["oracle"] = {
         "evaluations": stats["evaluations"], "distinct_nontrivial": stats["nontrivial"],
         "annotations": len(anns), "failures": len(fails),
@@ -399,7 +439,7 @@ def search(run: lib.Run, broken):
 
 
 def replay(payload):
-    mod = impl.new_module("verif_c15_replay", universe.PRELUDE)
+    mod = impl.new_module("verif_c15_replay", payload.get("module_source") or universe.PRELUDE)
     try:
         t = eval(payload["annotation"], mod.__dict__)
         impl.clear_caches()
